@@ -307,6 +307,7 @@ fn enc_node(n: &Node, depth: usize, parent: Option<usize>, base: usize, out: &mu
         NodeKind::Leaf(p) => {
             let pb = payload_bytes(p, &n.enc);
             let w = if n.enc.size_w == 0 { size_min_width(pb.len() as u64) } else { n.enc.size_w as usize };
+            assert!((pb.len() as u64) < (1u64 << (7 * w)) - 1, "generator must pick a width that fits (all-ones is reserved)");
             let sv = ref_vint(pb.len() as u64, w).expect("generator must pick a width that fits");
             out.extend_from_slice(&idb);
             let id_end = base + out.len();
@@ -350,6 +351,7 @@ fn enc_node(n: &Node, depth: usize, parent: Option<usize>, base: usize, out: &mu
                 ref_vint((1u64 << (7 * w)) - 1, w).unwrap()
             } else {
                 let w = if n.enc.size_w == 0 { size_min_width(body.len() as u64) } else { n.enc.size_w as usize };
+                assert!((body.len() as u64) < (1u64 << (7 * w)) - 1, "generator must pick a width that fits (all-ones is reserved)");
                 ref_vint(body.len() as u64, w).expect("generator must pick a width that fits")
             };
             out.extend_from_slice(&idb);
